@@ -1,9 +1,9 @@
 use crate::error::{Sm9Error, Sm9Result};
 use crate::fields::{mod_n_add, mod_n_from_hash, mod_n_inv, mod_n_mul, mod_n_sub, FieldElement};
 use crate::points::{sm9_u256_pairing, twist_point_add_full, Point, TwistPoint};
-use crate::u256::{sm9_random_u256, u256_cmp, xor, U256};
+use crate::u256::{sm9_random_u256, u256_cmp, u256_from_be_bytes, xor, U256};
 use crate::{
-    SM9_HASH1_PREFIX, SM9_HASH2_PREFIX, SM9_HID_ENC, SM9_HID_EXCH, SM9_HID_SIGN, SM9_N_MINUS_ONE,
+    SM9_HASH1_PREFIX, SM9_HASH2_PREFIX, SM9_HID_ENC, SM9_HID_EXCH, SM9_HID_SIGN, SM9_N_MINUS_ONE, SM9_P,
     SM9_POINT_MONT_P1, SM9_TWIST_POINT_MONT_P2,
 };
 use gm_sm3::sm3_hash;
@@ -62,6 +62,12 @@ impl Sm9EncKey {
         let c1_bytes = &data[0..65];
         let c2 = &data[(65 + 32)..];
         let c3 = &data[65..(65 + 32)];
+        // the coordinates of C1 must be field elements: an encoding with x >= p or y >= p is not a point
+        if u256_cmp(&u256_from_be_bytes(&c1_bytes[1..33]), &SM9_P) >= 0
+            || u256_cmp(&u256_from_be_bytes(&c1_bytes[33..65]), &SM9_P) >= 0
+        {
+            return Err(Sm9Error::InvalidPoint);
+        }
         let c1 = Point::from_bytes(c1_bytes);
         // B1: C1 must be a point of G1
         if !c1.is_on_curve() {
